@@ -168,6 +168,8 @@ structure Cfg where
   dropExpect : Nat      -- the value `drop` passes to futex_wait_fast
   setTidRet : Bool      -- epilogue: `set_tid_address(0)` before the losing thread frees tsm
   setTidPanic : Bool    -- panic handler: likewise
+  dropValH : Bool       -- `Drop for JoinHandle`: after a lost CAS the unread result is dropped before the block is freed
+  dropValT : Bool       -- epilogue: a thread that lost the CAS drops its result before it frees the block
   loadSync : Bool       -- assumption: observing the kernel's 0 with a plain load orders later accesses (x86-64 TSO)
   spurious : Bool       -- environment: FUTEX_WAIT may return 0 without a wake on the word
   deriving Repr, DecidableEq
@@ -188,6 +190,7 @@ structure Inst where
   tls : RSt
   stack : RSt
   box : RSt
+  val : RSt                 -- the closure's return value as an owned object (moved into the slot, out of it by join)
   tsmFrees : Nat
   tlsFrees : Nat
   stackFrees : Nat
@@ -203,7 +206,7 @@ structure Inst where
 
 def Inst.init : Inst :=
   { h := .fresh, t := .notStarted, panicked := false, flag := false, word := 0, slot := none, ctid := false,
-    kdone := false, winner := none, tsm := .unalloc, tls := .unalloc, stack := .unalloc, box := .unalloc,
+    kdone := false, winner := none, tsm := .unalloc, tls := .unalloc, stack := .unalloc, box := .unalloc, val := .unalloc,
     tsmFrees := 0, tlsFrees := 0, stackFrees := 0, boxFrees := 0, bad := false, runs := 0, ret := none,
     hsees := false, raced := false, joinRes := none }
 
@@ -219,6 +222,9 @@ def freeTsm (x : Inst) : Inst := { x with bad := x.bad || notLive x.tsm, tsm := 
 def freeTls (x : Inst) : Inst := { x with bad := x.bad || notLive x.tls, tls := .freed, tlsFrees := x.tlsFrees + 1 }
 def freeStack (x : Inst) : Inst := { x with bad := x.bad || notLive x.stack, stack := .freed, stackFrees := x.stackFrees + 1 }
 def freeBox (x : Inst) : Inst := { x with bad := x.bad || notLive x.box, box := .freed, boxFrees := x.boxFrees + 1 }
+/-- the value in the slot (if any) leaves the runtime's hands: handed to join's caller, or dropped in place -/
+def takeVal (x : Inst) : Inst :=
+  if x.slot = none then x else { x with bad := x.bad || notLive x.val, val := .freed }
 
 def expectOf (c : Cfg) (j : Bool) : Nat := if j then c.joinExpect else c.dropExpect
 def afterWait (j : Bool) : HPc := if j then .jRead else .dFree
@@ -296,16 +302,18 @@ def stepI (c : Cfg) (x : Inst) (e : Ev) : Option Inst :=
       | _ => none
   | .hReadSlot =>       -- tsm.get_value().into_inner()
       if x.h = .jRead then
-        some (touchTsm { x with h := .jFree, joinRes := some x.slot, raced := x.raced || !x.hsees })
+        some (takeVal (touchTsm { x with h := .jFree, joinRes := some x.slot, raced := x.raced || !x.hsees }))
       else none
   | .hFreeTsm =>        -- tsm.dealloc(): reads the layout fields, frees
       if x.h = .jFree then some (freeTsm (touchTsm { x with h := .joined, raced := x.raced || !x.hsees }))
-      else if x.h = .dFree then some (freeTsm (touchTsm { x with h := .dropped, raced := x.raced || !x.hsees }))
+      else if x.h = .dFree then
+        let y := touchTsm { x with h := .dropped, raced := x.raced || !x.hsees }
+        some (freeTsm (if c.dropValH then takeVal y else y))
       else none
   /- ---- T ---- -/
   | .tRet v =>          -- start_fn: Box::from_raw, call; the closure body runs and returns v
       if x.t = .run then
-        some (touchBox (touchStack { x with t := .write v, runs := x.runs + 1, ret := some (some v) }))
+        some (touchBox (touchStack { x with t := .write v, runs := x.runs + 1, ret := some (some v), val := .live }))
       else none
   | .tPanic =>          -- the closure body runs and panics: #[panic_handler]
       if x.t = .run then
@@ -335,7 +343,10 @@ def stepI (c : Cfg) (x : Inst) (e : Ev) : Option Inst :=
   | .tSetTid =>         -- set_tid_address(0)
       if x.t = .setTid then some (touchStack { x with t := .freeTsm, ctid := false }) else none
   | .tFreeTsm =>
-      if x.t = .freeTsm then some (freeTsm (touchTsm (touchStack { x with t := afterFlag x.panicked }))) else none
+      if x.t = .freeTsm then
+        let y := touchTsm (touchStack { x with t := afterFlag x.panicked })
+        some (freeTsm (if c.dropValT then takeVal y else y))
+      else none
   | .tFreeBox =>        -- the Box<F> allocation is released when `start_fn`'s call returns
       if x.t = .freeBox then some (freeBox (touchStack { x with t := .munmap })) else none
   | .tMunmap =>         -- asm: munmap(own stack); nothing below touches the stack
@@ -376,7 +387,7 @@ def run (c : Cfg) : St → List (Nat × Ev) → Option St
 /-- what the proofs need of the source-derived parameters and of the environment -/
 def Cfg.Good (c : Cfg) : Prop :=
   c.checkClone = true ∧ c.mmapCleanup = true ∧ c.initWord = 1 ∧ c.joinExpect = 1 ∧ c.dropExpect = 1 ∧
-  c.setTidRet = true ∧ c.setTidPanic = true ∧ c.loadSync = true ∧ c.spurious = false
+  c.setTidRet = true ∧ c.setTidPanic = true ∧ c.loadSync = true ∧ c.spurious = false ∧ c.dropValH = true ∧ c.dropValT = true
 
 instance (c : Cfg) : Decidable c.Good := by unfold Cfg.Good; infer_instance
 
@@ -461,7 +472,7 @@ def spawnedOk (h : HPc) : Bool :=
 
 /-- heap blocks / mappings of this instance that are live -/
 def b2n (b : Bool) : Nat := if b then 1 else 0
-def liveHeap (x : Inst) : Nat := b2n (x.tsm == .live) + b2n (x.tls == .live) + b2n (x.box == .live)
+def liveHeap (x : Inst) : Nat := b2n (x.tsm == .live) + b2n (x.tls == .live) + b2n (x.box == .live) + b2n (x.val == .live)
 def liveMaps (x : Inst) : Nat := b2n (x.stack == .live)
 
 def sumTo (f : Nat → Nat) : Nat → Nat
